@@ -150,7 +150,9 @@ func (t *shared) ReleasePendingPages() {
 	}
 	// Release unused txid extents.
 	for _, tid := range t.readonlyTXIDs {
-		t.releaseRange(minid, tid-1)
+		if tid > 0 {
+			t.releaseRange(minid, tid-1)
+		}
 		minid = tid + 1
 	}
 	t.releaseRange(minid, common.Txid(math.MaxUint64))
